@@ -325,6 +325,43 @@ def builtin_call(ex, name, e, env):
                 out = out + x
             return out
         return agg_model(ex, "sum", v, e)
+    if name == "factorial":
+        n = to_int(lift(A(0)))
+        ex.require(n >= 0, "safe.ValueError-factorial-negative", e)
+        f = z3.Function("FACT", I, I)
+        ex.assumptions.add("builtin.factorial: an uninterpreted function with factorial(x) >= 1 for all x (its values are never needed: code and specification use the same term)")
+        xq = z3.Int("x!fact")
+        ex.fact(z3.ForAll([xq], f(xq) >= 1))
+        return f(n)
+    if name == "prod":
+        h = ex.deref(A(0))
+        if isinstance(h, CList):
+            h = ex.as_alist(h)
+        if not isinstance(h, AList) or h.es != "int":
+            raise Unsupported("prod of a non-integer / non-list argument")
+        f = z3.Function("LPROD", z3.ArraySort(I, I), I, I)
+        ex.assumptions.add("builtin.prod: uninterpreted product of the first n elements of an integer array (positive when every element is)")
+        t = fresh("t")
+        # positivity: decided here (linear + uninterpreted functions only), so that later nonlinear obligations get it as a plain fact
+        sv = z3.Solver()
+        sv.set("timeout", 3000)
+        sv.add(*ex.pc)
+        sv.add(*ex.facts)
+        sv.add(0 <= t, t < h.len, z3.Select(h.arr, t) < 1)
+        if sv.check() == z3.unsat:
+            ex.fact(f(h.arr, h.len) >= 1)
+        else:
+            ex.fact(z3.Implies(z3.ForAll([t], z3.Implies(z3.And(0 <= t, t < h.len), z3.Select(h.arr, t) >= 1)), f(h.arr, h.len) >= 1))
+        return f(h.arr, h.len)
+    if name == "perm":
+        h = ex.deref(A(0))
+        if not isinstance(h, Mat):
+            raise Unsupported("perm of a non-matrix")
+        ex.require(h.nr == h.nc, "safe.ValueError-perm-not-square", e)
+        s2 = z3.ArraySort(I, I, R)
+        fre, fim = z3.Function("PERM_re", s2, s2, I, R), z3.Function("PERM_im", s2, s2, I, R)
+        ex.assumptions.add("external.thewalrus.perm: an uninterpreted complex function of the matrix (entries and dimension)")
+        return CVal(fre(h.re, h.im, h.nr), fim(h.re, h.im, h.nr))
     if name in ("all", "any"):
         v = A(0)
         if isinstance(v, tuple) and v and isinstance(v[0], str) and v[0] == "genexp":
